@@ -14,6 +14,7 @@ import itertools
 import json
 import os
 import pkgutil
+import re
 import shutil
 import sys
 import tempfile
@@ -514,7 +515,7 @@ def run_tree(check, supp, stats, spec, quick, tree_no):
     rng = check.rng
     files, dirs = spec['files'], spec['dirs']
     base = os.path.realpath(tempfile.mkdtemp(prefix='c07-'))
-    for anc in (base, os.path.dirname(base), '/'):
+    for anc in (base, os.path.dirname(base)):
         if os.path.exists(os.path.join(anc, '__init__.py')):
             raise common.Infra('an __init__.py above the temporary directory: ' + anc)
     try:
@@ -560,7 +561,7 @@ def run_tree(check, supp, stats, spec, quick, tree_no):
                         rels.append((fn, 'abs.name'))
                     for fn in rng.sample(all_files, min(len(all_files), 6)):
                         for line in ('from .', 'from ..', 'from .sub.', 'import pk.', 'from pk.', 'from pk.sub.', 'import ',
-                                     'from ...', 'import nope.', 'from nope.'):
+                                     'from ...', 'import nope.', 'from nope.', 'from\tpk.', '  from  .'):
                             asst.append((fn, line))
                         for nm in ('.x1', '..util', 'pk', '.', '...nope'):
                             ngets.append((fn, nm))
@@ -711,9 +712,9 @@ def run_tree(check, supp, stats, spec, quick, tree_no):
 def assist_root(supp, line):
     """the package whose children `assist` lists for an import line ending at the cursor (assistant.py's own
     string manipulations, re-done here only to know which model query to ask; the result is compared)"""
-    if line.lstrip().startswith('from ') and ' import ' not in line:
-        iname = line.rpartition(' ')[2]
-        package, sep, prefix = iname.rpartition('.')
+    from_module = re.match(r'\s*from\s+([\w.]*)$', line)
+    if from_module:
+        package, sep, prefix = from_module.group(1).rpartition('.')
         if (not package or package.startswith('.')) and sep:
             package += '.'
         return package
@@ -894,7 +895,7 @@ def run(check):
         'os.path.exists/listdir/join/dirname/basename are modelled by hand on a finite Fs and validated only by this correspondence',
         'the model is the cache-free search (C09 covers _module_cache/_context_cache/_norm_cache); dyn_modules empty; the __import__ of '
         'non-source files is not performed (only the selected file is compared); sys.modules and sys.path are parameters',
-        'no __init__.py above the temporary directory (norm_package would climb into it; with /__init__.py it does not terminate)',
+        'no __init__.py directly above the temporary directory (norm_package would climb into directories the Fs snapshot does not contain)',
         'domain of the oracle comparison = the decidable hypotheses of C07_find evaluated by the driver per name: validComps, '
         'NoNamespaceDirs, NoModulePackageClash (module file next to a package directory of the same name), Regular '
         '(no directory named like a module file, no __init__.<ext> / __init__.pyc packages); outside it disagreements are counted, not failed',
